@@ -12,7 +12,7 @@ use serde::{Deserialize, Serialize};
 pub fn def() -> PropDef {
     PropDef {
         id: "C06",
-        rule: "generated call sequences on every codec family x engine, encoder and decoder, and one-shot calls; arguments from pools that include 0, 1, 2^a+-1, 65535..65537, 2^32+-1, usize::MAX-1, usize::MAX and random values for counts and indexes, and 0/1/odd/huge for sizes and shard lengths; object states reached by generated prefixes (valid adds, failing adds, resets). oracle: executable model of the documented preconditions giving the set V of truthful errors per call: V empty => Ok; V non-empty => Err(e) with e in V; any unwind is a violation. Even sizes > 4096 are only generated together with unsupported counts (allocation failure is outside the property). non-trivial: call with V non-empty on an object that already holds >=1 shard, or >=2 simultaneous violations, or an argument >= 2^32; distinct by full case",
+        rule: "generated call sequences on every codec family x engine, encoder and decoder, and one-shot calls; arguments from pools that include 0, 1, 2^a+-1, 65535..65537, 2^32+-1, usize::MAX-1, usize::MAX and random values for counts and indexes, and 0/1/odd/huge for sizes and shard lengths; object states reached by generated prefixes (valid adds, failing adds, resets). oracle: executable model of the documented preconditions giving the set V of truthful errors per call: V empty => Ok; V non-empty => Err(e) with e in V; any unwind is a violation. Even sizes > 4096 are only generated together with unsupported counts (allocation failure is outside the property). part after_reset_streaks: objects that went through streaks of up to 300 consecutive resets (see C05 reset_streaks) must accept every valid call of a complete round (V empty => Ok). non-trivial: call with V non-empty on an object that already holds >=1 shard, or >=2 simultaneous violations, or an argument >= 2^32; distinct by full case",
         assumptions: &[
             "built with overflow checks and debug assertions on (the arithmetic of a dev build); thorough repeats the cases in a second build with wrapping arithmetic",
             "NotEnoughShards / TooFewOriginalShards counts are accepted anywhere between the number of usable and the number of given shards for one-shot calls",
@@ -25,6 +25,7 @@ fn parts() -> Vec<Box<dyn PartDyn>> {
     vec![
         Box::new(GenPart { name: "object", quick: 60_000, thorough: 1_500_000, shrink_iters: 1500, strat: obj_strategy, check: check_obj }),
         Box::new(GenPart { name: "static", quick: 60_000, thorough: 1_500_000, shrink_iters: 300, strat: static_strategy, check: check_static }),
+        Box::new(GenPart { name: "after_reset_streaks", quick: 4_000, thorough: 80_000, shrink_iters: 200, strat: crate::props::c05::streak_strategy, check: |c, st| crate::props::c05::run_streak(c, st, "after_reset_streaks", true) }),
         Box::new(GenPart { name: "oneshot", quick: 60_000, thorough: 1_500_000, shrink_iters: 1500, strat: oneshot_strategy, check: check_oneshot }),
     ]
 }
